@@ -215,7 +215,7 @@ Proof. eexists. split; [vm_compute; reflexivity|]. split; [cbn; lia | reflexivit
 Example C11_chain_nonvacuous : exists oa res,
   execute_block ex_rules ex_mk ex_parent ex_b1 = inl oa
   /\ run_chain ex_rules ex_mk (next_parent ex_parent oa) [ex_b2; ex_b3] = Some res.
-Proof. eexists. eexists. split; vm_compute; reflexivity. Qed.
+Proof. eexists. eexists. split; [vm_compute; reflexivity|]. vm_compute. reflexivity. Qed.
 
 (* body_runs and the absence of faults (hypotheses of C11_header_iff): a block with a good header and one
    with a wrong root, both executing their transaction *)
@@ -225,8 +225,8 @@ Example C11_header_iff_nonvacuous :
   /\ execute_block ex_rules ex_mk ex_parent (mkBlock 1000 6 false false false None [ex_tx]) = inr (clsRootMismatch, 0).
 Proof.
   split; [reflexivity|].
-  split. { split; [reflexivity|]. do 4 eexists. split; vm_compute; reflexivity. }
-  split. { split; [reflexivity|]. do 4 eexists. split; vm_compute; reflexivity. }
+  split. { split; [reflexivity|]. do 4 eexists. split; [vm_compute; reflexivity|]. vm_compute. reflexivity. }
+  split. { split; [reflexivity|]. do 4 eexists. split; [vm_compute; reflexivity|]. vm_compute. reflexivity. }
   vm_compute. reflexivity.
 Qed.
 
